@@ -305,8 +305,9 @@ def analyse(path, make_store):
     for t in order:
         val, loads, can_run = raw[id(t)]
         reported = sorted({index[d.hash()] for d in t.dependencies()})
+        reported_again = sorted({index[d.hash()] for d in t.dependencies()})
         reads = sorted({index[h] for h in loads if h in index})
-        info.append({'name': t.name, 'value': val, 'reads': reads, 'reported': reported, 'can_run': can_run})
+        info.append({'name': t.name, 'value': val, 'reads': reads, 'reported': reported, 'can_run': can_run, 'reported_again': reported_again})
     for u in tasks:
         u.unload()
     top = {}
